@@ -9,6 +9,8 @@ import (
 	"path/filepath"
 	"strings"
 	"time"
+	"verif/harness/batch"
+	"verif/harness/gspec"
 )
 
 var toolAssumptions = []string{
@@ -76,8 +78,8 @@ func init() {
 	register("C13", func(r *Run) error {
 		return runT(r, &TSpec{
 			ID: "C13", Test: "TestC13", Checks: [2]int{4000, 60000}, Shards: [2]int{16, 16}, Fuzz: "FuzzToolTotal", FuzzTime: 150 * time.Second,
-			Confirm: confirmHang,
-			Rule:    "grammar texts drawn by rapid: valid grammars of every profile (incl. throw/recover, state blocks, adversarial names), near-valid mutations (range deletions, spliced tokens such as %{ //{ \\p{ quotes and braces, replaced bytes, duplicated rules), tiny hand-picked texts and arbitrary bytes, x every combination of -optimize-grammar -optimize-parser -optimize-basic-latin -support-left-recursion -nolint -cache, -receiver-name (odd values), -alternate-entrypoints (known/unknown rules), -x, -no-recover, input via file or stdin, output via -o or stdout; main() runs in-process; validity predicate: returns or calls exit(n), never an unrecovered panic; n!=0 => diagnostic on stderr without a Go trace; n==0 => no diagnostic was printed and (unless -x) the output parses as Go and contains func Parse(; 20 s limit per case (inconclusive, confirmed through the command with 60 s); every 10th case is also run through the real binary and exit status/output compared. Non-trivial = the text passes the front-end and reaches optimizer or builder with a non-default flag set. Thorough tier adds two native coverage-guided campaigns of FuzzToolTotal (with the repository's .peg files as corpus, and from an empty corpus).",
+			Confirm:     confirmHang,
+			Rule:        "grammar texts drawn by rapid: valid grammars of every profile (incl. throw/recover, state blocks, adversarial names), near-valid mutations (range deletions, spliced tokens such as %{ //{ \\p{ quotes and braces, replaced bytes, duplicated rules), tiny hand-picked texts and arbitrary bytes, x every combination of -optimize-grammar -optimize-parser -optimize-basic-latin -support-left-recursion -nolint -cache, -receiver-name (odd values), -alternate-entrypoints (known/unknown rules), -x, -no-recover, input via file or stdin, output via -o or stdout; main() runs in-process; validity predicate: returns or calls exit(n), never an unrecovered panic; n!=0 => diagnostic on stderr without a Go trace; n==0 => no diagnostic was printed and (unless -x) the output parses as Go and contains func Parse(; 20 s limit per case (inconclusive, confirmed through the command with 60 s); every 10th case is also run through the real binary and exit status/output compared. Non-trivial = the text passes the front-end and reaches optimizer or builder with a non-default flag set. Thorough tier adds two native coverage-guided campaigns of FuzzToolTotal (with the repository's .peg files as corpus, and from an empty corpus).",
 			Assumptions: toolAssumptions,
 		})
 	})
@@ -85,11 +87,44 @@ func init() {
 
 func init() {
 	register("C07", func(r *Run) error {
-		return runT(r, &TSpec{
+		// two parts: the static half (which grammars are accepted) through the tool engine,
+		// the run-time half (accepted grammars never recurse without bound) through the batch
+		// engine. A replay file goes to the engine that wrote it.
+		static := &TSpec{
 			ID: "C07", Test: "TestC07", Checks: [2]int{16000, 320000}, Shards: [2]int{16, 16},
-			Rule:        "arbitrary rule-reference graphs (2-6 rules) drawn by rapid, every reference placed behind a drawn prefix kind (nothing, consuming terminal, [^], x?, x*, empty literal, &x, !x, &{}, #{}, [], nullable rules) and optionally wrapped ((R)? (R)* (R)+ &R !R l:R, inside ( .. R .. )?, inside recovery operators, behind a throw); two-sided oracle with an explicit gap: (R) MUST REJECT when the reference interpreter finds, on a fixed set of short inputs plus sampled derivations, a rule re-entered at an offset at which it is already active (a concrete witness of unbounded recursion) - the in-process build without -support-left-recursion must fail with builder.ErrHaveLeftRecursion; (A) MUST ACCEPT when the over-approximated first-graph (through & ! and recovery expressions, textbook nullability) has no cycle - the build must succeed; grammars in between are counted 'undecided' and never reported; every 40th decided case also goes through the command (exit 5 + diagnostic / exit 0). Non-trivial = the plain reference graph has a cycle. Accepted grammars never recursing without bound at run time is exercised by every Engine B check (all their grammars are accepted ones and run under a watchdog).",
+			Rule:        "arbitrary rule-reference graphs (2-6 rules) drawn by rapid, every reference placed behind a drawn prefix kind (nothing, consuming terminal, [^], x?, x*, empty literal, &x, !x, &{}, #{}, [], nullable rules) and optionally wrapped ((R)? (R)* (R)+ &R !R l:R, inside ( .. R .. )?, inside recovery operators, behind a throw); two-sided oracle with an explicit gap: (R) MUST REJECT when the reference interpreter finds, on a fixed set of short inputs plus sampled derivations, a rule re-entered at an offset at which it is already active (a concrete witness of unbounded recursion) - the in-process build without -support-left-recursion must fail with builder.ErrHaveLeftRecursion; (A) MUST ACCEPT when the over-approximated first-graph (through & ! and recovery expressions, textbook nullability) has no cycle - the build must succeed; grammars in between are counted 'undecided' and never reported; every 40th decided case also goes through the command (exit 5 + diagnostic / exit 0). Non-trivial = the plain reference graph has a cycle.",
 			Assumptions: toolAssumptions,
-		})
+		}
+		runtime := &BSpec{
+			ID: "C07", Profiles: []string{"core", "utf8", "codeblocks", "throwrecover", "core", "errors"},
+			Grammars: [2]int{64, 1200}, Cases: [2]int{300, 800},
+			Variants: func(i int, g *gspec.Grammar) []batch.Variant {
+				sets := [][]string{{"-optimize-basic-latin"}, {"-optimize-parser"}, {"-optimize-parser", "-optimize-basic-latin"}, {"-nolint", "-optimize-basic-latin"}}
+				if g.Profile == "core" || g.Profile == "utf8" || g.Profile == "errors" {
+					// (grammars with code blocks stay clear of -optimize-grammar: KF-C04-OPTSCOPE)
+					alt := "-alternate-entrypoints=" + joinComma(g.Entries)
+					sets = append(sets, []string{"-optimize-grammar", alt}, []string{"-optimize-grammar", "-optimize-basic-latin", "-optimize-parser", alt})
+				}
+				return []batch.Variant{{Name: "plain"}, {Name: "flags", Flags: sets[i%len(sets)]}}
+			},
+			Rule:        "grammars drawn by rapid from the profiles core/utf8/codeblocks/throwrecover/errors (well-formed and free of left recursion by construction, recursive through guarded references: a rule may call itself only behind an expression that consumes), each generated by the real pigeon command without -support-left-recursion, plain and under one of six flag sets (-optimize-basic-latin, -optimize-parser, -optimize-grammar and combinations); rapid draws (entry, input from derivation sampling + edits, a third truncated at a drawn rune so that terminals fail at the end of the input); oracle: the reference interpreter needs N expression evaluations on the case, the generated parser runs under MaxExpressions(8N+10000): reaching the limit, a stack exhaustion, a crash or a hang (watchdog) is the violation - every other difference is left to C01. Non-trivial = rule invocations nest >=3 deep and >=3 terminals are attempted.",
+			Assumptions: commonAssumptions,
+		}
+		if r.Opt.Replay != "" {
+			if replayEngine(r.Opt.Replay) == "batch" {
+				return runB(r, runtime)
+			}
+			return runT(r, static)
+		}
+		r.multi = true
+		err := runT(r, static)
+		if err == nil {
+			err = runB(r, runtime)
+		}
+		if ferr := r.FlushParts([]string{"static (tool engine)", "run time (batch engine)"}); err == nil {
+			err = ferr
+		}
+		return err
 	})
 	register("C19", func(r *Run) error {
 		return runT(r, &TSpec{
